@@ -36,6 +36,13 @@ pub open spec fn entries_of<K, V>(s: Seq<(K, V)>, m: IMap<K, V>) -> bool {
     &&& forall|k: K| #[trigger] m.contains_key(k) ==> exists|i: int| 0 <= i < s.len() && #[trigger] s[i].0 == k
 }
 
+/// entries_of, stated directly on the snapshot of references that `.iter()` returns
+pub open spec fn ref_entries_of<'a, K, V>(s: Seq<(&'a K, &'a V)>, m: IMap<K, V>) -> bool {
+    &&& forall|i: int, j: int| 0 <= i < j < s.len() ==> vx_lt(*#[trigger] s[i].0, *#[trigger] s[j].0)
+    &&& forall|i: int| #![trigger s[i]] 0 <= i < s.len() ==> m.contains_key(*s[i].0) && m[*s[i].0] == *s[i].1
+    &&& forall|k: K| #[trigger] m.contains_key(k) ==> exists|i: int| 0 <= i < s.len() && *#[trigger] s[i].0 == k
+}
+
 pub open spec fn deref_pairs<'a, K, V>(s: Seq<(&'a K, &'a V)>) -> Seq<(K, V)> {
     s.map_values(|p: (&'a K, &'a V)| (*p.0, *p.1))
 }
@@ -130,6 +137,7 @@ impl<K, V> BTreeMap<K, V> {
         ensures
             deref_pairs(r@) == vx_entries(self@),
             entries_of(vx_entries(self@), self@),
+            ref_entries_of(r@, self@),
     {
         unimplemented!()
     }
@@ -191,5 +199,108 @@ impl<K, V> PartialEq for BTreeMap<K, V> {
     fn eq(&self, other: &BTreeMap<K, V>) -> (r: bool)
     {
         unimplemented!()
+    }
+}
+
+/// keys of map_of_seq are exactly the first components of the sequence
+pub open spec fn seq_has_key<K, V>(s: Seq<(K, V)>, k: K) -> bool {
+    exists|i: int| 0 <= i < s.len() && #[trigger] s[i].0 == k
+}
+
+pub proof fn lemma_map_of_seq_key<K, V>(s: Seq<(K, V)>, k: K)
+    ensures
+        map_of_seq(s).contains_key(k) <==> seq_has_key(s, k),
+    decreases s.len(),
+{
+    if s.len() > 0 {
+        let t = s.drop_last();
+        lemma_map_of_seq_key(t, k);
+        assert(map_of_seq(s) == map_of_seq(t).insert(s.last().0, s.last().1));
+        if map_of_seq(s).contains_key(k) {
+            if k == s.last().0 {
+                assert(s[s.len() - 1].0 == k);
+            } else {
+                assert(map_of_seq(t).contains_key(k));
+                assert(seq_has_key(t, k));
+                let i = choose|i: int| 0 <= i < t.len() && #[trigger] t[i].0 == k;
+                assert(t[i] == s[i]);
+                assert(s[i].0 == k);
+            }
+        }
+        if seq_has_key(s, k) {
+            let i = choose|i: int| 0 <= i < s.len() && #[trigger] s[i].0 == k;
+            if i < s.len() - 1 {
+                assert(t[i] == s[i]);
+                assert(t[i].0 == k);
+                assert(seq_has_key(t, k));
+            } else {
+                assert(k == s.last().0);
+            }
+        }
+    } else {
+        assert(map_of_seq(s) == IMap::<K, V>::empty());
+        assert(!map_of_seq(s).contains_key(k));
+    }
+}
+
+pub proof fn lemma_map_of_seq_keys<K, V>(s: Seq<(K, V)>)
+    ensures
+        forall|k: K| #[trigger] map_of_seq(s).contains_key(k) <==> seq_has_key(s, k),
+{
+    assert forall|k: K| #[trigger] map_of_seq(s).contains_key(k) <==> seq_has_key(s, k) by {
+        lemma_map_of_seq_key(s, k);
+    }
+}
+
+/// with pairwise distinct keys, map_of_seq holds every pair of the sequence
+pub proof fn lemma_map_of_seq_distinct<K, V>(s: Seq<(K, V)>)
+    requires
+        forall|i: int, j: int| 0 <= i < j < s.len() ==> #[trigger] s[i].0 != #[trigger] s[j].0,
+    ensures
+        forall|i: int| 0 <= i < s.len() ==> map_of_seq(s).contains_key(#[trigger] s[i].0) && map_of_seq(s)[s[i].0] == s[i].1,
+    decreases s.len(),
+{
+    if s.len() > 0 {
+        let t = s.drop_last();
+        lemma_map_of_seq_distinct(t);
+        assert forall|i: int| 0 <= i < s.len() implies map_of_seq(s).contains_key(#[trigger] s[i].0) && map_of_seq(s)[s[i].0] == s[i].1 by {
+            if i < s.len() - 1 {
+                assert(t[i] == s[i]);
+                assert(s[i].0 != s[s.len() - 1].0);
+            }
+        }
+    }
+}
+
+/// a sequence that keeps the keys of the sorted entries of m, in order, builds a map with the same keys
+pub proof fn lemma_mapped_entries<K, V>(e: Seq<(K, V)>, m: IMap<K, V>, ms: Seq<(K, V)>)
+    requires
+        entries_of(e, m),
+        ms.len() == e.len(),
+        forall|i: int| 0 <= i < e.len() ==> #[trigger] ms[i].0 == e[i].0,
+    ensures
+        forall|k: K| #[trigger] map_of_seq(ms).contains_key(k) <==> m.contains_key(k),
+        forall|i: int| 0 <= i < e.len() ==> map_of_seq(ms).contains_key(#[trigger] e[i].0) && map_of_seq(ms)[e[i].0] == ms[i].1,
+{
+    broadcast use group_vx_lt;
+    lemma_map_of_seq_keys(ms);
+    assert forall|i: int, j: int| 0 <= i < j < ms.len() implies #[trigger] ms[i].0 != #[trigger] ms[j].0 by {
+        assert(vx_lt(e[i].0, e[j].0));
+    }
+    lemma_map_of_seq_distinct(ms);
+    assert forall|k: K| #[trigger] map_of_seq(ms).contains_key(k) <==> m.contains_key(k) by {
+        if map_of_seq(ms).contains_key(k) {
+            assert(seq_has_key(ms, k));
+            let i = choose|i: int| 0 <= i < ms.len() && #[trigger] ms[i].0 == k;
+            assert(e[i].0 == k);
+        }
+        if m.contains_key(k) {
+            let i = choose|i: int| 0 <= i < e.len() && #[trigger] e[i].0 == k;
+            assert(ms[i].0 == k);
+            assert(seq_has_key(ms, k));
+        }
+    }
+    assert forall|i: int| 0 <= i < e.len() implies map_of_seq(ms).contains_key(#[trigger] e[i].0) && map_of_seq(ms)[e[i].0] == ms[i].1 by {
+        assert(ms[i].0 == e[i].0);
     }
 }
